@@ -17,7 +17,7 @@ RULE = ('grid: ids {0..9,0xff,0x100..0x108,0x7fff,0xffff} x values {0,1,2,3,2^14
         'send windows at 2^31-1-d, some closed or half-closed, INITIAL_WINDOW_SIZE raised by d-1,d,d+1) and random (id,value) '
         'pairs; non-trivial = verdict of the table compared with the observed reaction; distinct = the grid cell / hash of case')
 MINIMA = {'grid_judged': 4000, 'rejected_with_code_checked': 500, 'accepted_checked': 2000, 'overflow_cases_judged': 300,
-          'overflow_expected_error': 50, 'overflow_expected_ok': 50}
+          'overflow_expected_error': 50, 'overflow_expected_ok': 50, 'overflow_cases_with_reserved_stream': 100}
 EXHAUSTIVE = {}
 
 IDS = list(range(0, 10)) + [0xff] + list(range(0x100, 0x109)) + [0x7fff, 0xffff]
@@ -168,8 +168,20 @@ def run_overflow(idx, rng, rep):
     live = {}        # sid -> shadow send window, only streams that still have a window (not closed)
     order = []
     for k in range(n):
-        st = rng.choice(['open', 'open_resp', 'hc_remote', 'hc_local', 'closed_rst_sent', 'closed_rst_recv', 'closed_es'])
-        sid = h.reach(st)
+        st = rng.choice(['open', 'open_resp', 'hc_remote', 'hc_local', 'closed_rst_sent', 'closed_rst_recv', 'closed_es'] +
+                        ([] if e_client else ['reserved_local', 'reserved_local']))
+        if st == 'reserved_local':
+            # a stream the server has promised and not started yet: it has a send window like any other
+            par = h.reach('open')
+            sid = h.e_next
+            h.e_next += 2
+            if not t.call('push_stream', par, sid, scen.REQ).ok:
+                return
+            rep.count('overflow_cases_with_reserved_stream')
+            order.append((par, 'open'))
+            live[par] = 65535
+        else:
+            sid = h.reach(st)
         order.append((sid, st))
         if not st.startswith('closed'):
             live[sid] = 65535
